@@ -199,7 +199,7 @@ def units(tier, seed):
         shards[i].append(s)
         loads[i] += w(s)
     us = [Unit(f"catalogue_{i:02d}", "c04:unit_specs", {"specs": sh}, loads[i]) for i, sh in enumerate(shards) if sh]
-    ng = 300 if T else 50
+    ng = 2000 if T else 50
     for sh in range(3):
         for kind in ("generic", "systematic", "ldpc"):
             us.append(Unit(f"gen_{kind}_{sh}", "c04:unit_generated", {"kind": kind, "n": ng, "shard": sh * 10 + len(kind)}, 5))
